@@ -483,6 +483,11 @@ def run(only=None):
         s.declared = None
         hist.kept_results(s, "generate", [({"message": m_.hex()}, (lambda m_=m_: RS.generate(m_, MASK_VOICE_LC))) for m_ in msgs], obs=lambda r: bytes(r).hex())
         hist.long_history(s, [RS, _mrs], probes, always=thorough)
+        hist.picklable_entry_points(s, {"generate": RS.generate, "check": RS.check, "log_multiply": RS.log_multiply, "xor_bytes": RS.xor_bytes})
+        hist.many_distinct_inputs(s, [RS, _mrs], [
+            ("generate", lambda i: (i * 0x9E3779B97F4A7C15 + 1).to_bytes(12, "big")[-9:], lambda m_: bytes(RS.generate(m_, MASK_TERMINATOR))),
+            ("check", lambda i: (lambda m_: m_ + xor3(bytes(gf256.parity(m_)), MASK_VOICE_LC))((i * 0x9E3779B97F4A7C15 + 7).to_bytes(12, "big")[-9:]), lambda w_: RS.check(w_, MASK_VOICE_LC)),
+        ], always=thorough)
         s.done()
 
     rep.bounds = {
